@@ -31,7 +31,8 @@ func c02Cmp1[V univers.Version[V], VR univers.VersionRange[V]](e univers.Ecosyst
 	vv.Assume(eb == nil)
 	vp, ep := e.NewVersion(probe)
 	vv.Assume(ep == nil)
-	vv.Assume(!vv.Known("KF-C02-npm-x-in-bound", c02NpmX(e.Name(), bound)))
+	vv.Reached()
+	vv.Assume(!vv.Known("KF-C02-x-in-bound", c02NpmX(e.Name(), bound)))
 	r, er := e.NewVersionRange(op + bound)
 	vv.Assert(er == nil, "C02: comparator directly before a valid version is rejected")
 	vv.Assume(er == nil)
@@ -39,7 +40,7 @@ func c02Cmp1[V univers.Version[V], VR univers.VersionRange[V]](e univers.Ecosyst
 }
 
 func c02NpmX(eco, bound string) bool {
-	if eco != "npm" {
+	if eco != "npm" && eco != "composer" {
 		return false
 	}
 	for i := 0; i < len(bound); i++ {
@@ -60,7 +61,8 @@ func c02And2[V univers.Version[V], VR univers.VersionRange[V]](e univers.Ecosyst
 	vv.Assume(e2 == nil)
 	vp, ep := e.NewVersion(probe)
 	vv.Assume(ep == nil)
-	vv.Assume(!vv.Known("KF-C02-npm-x-in-bound", orb(c02NpmX(e.Name(), b1), c02NpmX(e.Name(), b2))))
+	vv.Reached()
+	vv.Assume(!vv.Known("KF-C02-x-in-bound", orb(c02NpmX(e.Name(), b1), c02NpmX(e.Name(), b2))))
 	r, er := e.NewVersionRange(op1 + b1 + sep + op2 + b2)
 	vv.Assert(er == nil, "C02: AND of two comparators is rejected")
 	vv.Assume(er == nil)
@@ -74,7 +76,8 @@ func c02Or2[V univers.Version[V], VR univers.VersionRange[V]](e univers.Ecosyste
 	vv.Assume(e2 == nil)
 	vp, ep := e.NewVersion(probe)
 	vv.Assume(ep == nil)
-	vv.Assume(!vv.Known("KF-C02-npm-x-in-bound", orb(c02NpmX(e.Name(), b1), c02NpmX(e.Name(), b2))))
+	vv.Reached()
+	vv.Assume(!vv.Known("KF-C02-x-in-bound", orb(c02NpmX(e.Name(), b1), c02NpmX(e.Name(), b2))))
 	r, er := e.NewVersionRange(op1 + b1 + sep + op2 + b2)
 	vv.Assert(er == nil, "C02: OR of two comparators is rejected")
 	vv.Assume(er == nil)
